@@ -57,9 +57,12 @@ def lean_requests(c):
             r = ex.lean(c['inst'], a)
         except Exception:
             r = None
-        c['_slots'].append(r is not None)
+        t = ex.text_lean(c['inst'], a) if hasattr(ex, 'text_lean') else None
+        c['_slots'].append((r is not None, t is not None))
         if r is not None:
             reqs.append(r)
+        if t is not None:
+            reqs.append(t)
     return reqs
 
 
@@ -68,11 +71,12 @@ def judge(ctx, c, answers):
     subs = c.get('_answers')
     if subs is None:
         _, subs = answers_for(c)
-        c['_slots'] = [False] * len(subs)
+        c['_slots'] = [(False, False)] * len(subs)
     it = iter(answers)
     res = []
-    for k, (a, has_lean) in enumerate(zip(subs, c['_slots'])):
+    for k, (a, (has_lean, has_text)) in enumerate(zip(subs, c['_slots'])):
         la = next(it) if has_lean else None
+        lt = next(it) if has_text else None
         verdict, out = ex.check(c['inst'], a)
         try:
             crit = bool(ex.criterion(c['inst'], a))
@@ -91,6 +95,14 @@ def judge(ctx, c, answers):
             if model_ok != (verdict == 'OK'):
                 ctx.violation('correspondence:' + ex.name, {'case': c_min(c), 'answer': a, 'impl': verdict, 'model': la},
                               no_input=not (verdict == 'OK' and not crit))
+        if lt is not None and ex.name == 'dfa2regexp' and lt.get('ok') == 'ERROR':
+            # the generated (ANTLR) regexp parser recovers from syntax errors ('garbage !!' is read as g.a.r.b.a.g.e); the Lean
+            # parser is strict, so texts it rejects are outside the modelled domain of this one checker
+            ctx.count('dfa2regexp:text-outside-strict-syntax')
+        elif lt is not None and verdict != 'RAISED' and (lt.get('ok') == 'OK') != (verdict == 'OK'):
+            # the whole pipeline on text: library parsers + checker vs Gamba.Model.CheckText
+            ctx.violation('correspondence:text:' + ex.name, {'case': c_min(c), 'answer': a, 'impl': verdict, 'model': lt},
+                          no_input=not (verdict == 'OK' and not crit))
         ctx.record('c12/%s' % core.digest([c_min(c), a]), verdict)
         ctx.count('%s:%s' % (ex.name, verdict))
         ctx.case({'name': c['name'], 'inst': c['inst'], 'answer': a[:200]}, k > 0)
